@@ -324,4 +324,28 @@ theorem mem_oncesOf {tbl : List (String × List AStep)} {m : String × List ASte
     o ∈ oncesOf tbl :=
   List.mem_flatMap.mpr ⟨m, hm, List.mem_flatMap.mpr ⟨a, ha, ho⟩⟩
 
+theorem execSteps_reads (st : AState) (steps : List AStep) (h : steps.all isRead = true) :
+    (execSteps st steps).1 = st := by
+  induction steps with
+  | nil => rfl
+  | cons a t ih =>
+    simp only [List.all_cons, Bool.and_eq_true] at h
+    cases a with
+    | use s => simp only [execSteps, execStep]; exact ih h.2
+    | other w => simp only [execSteps, execStep]; exact ih h.2
+    | ensure s g => simp [isRead] at h
+    | store s g => simp [isRead] at h
+    | once k b => simp [isRead] at h
+
+theorem findSteps_linkless (q : String) (tbl : List (String × List AStep)) :
+    findSteps q (linkless tbl) = (findSteps q tbl).map (fun s => s.filter isRead) := by
+  induction tbl with
+  | nil => rfl
+  | cons m t ih =>
+    obtain ⟨n, st⟩ := m
+    by_cases hk : n = q
+    · simp [linkless, findSteps, hk]
+    · simp only [linkless, List.map_cons, findSteps, hk, if_false] at ih ⊢
+      exact ih
+
 end Pyunicorn.Pure
